@@ -146,7 +146,8 @@ func fifoShape(c *Ctx, rule string) {
 		}
 		nSt++
 		sl, ok := origin(st.Val).(*ssa.Slice)
-		okS := ok && isFieldLoad(sl.X, "vnet.chunkQueue", "chunks") && sl.High == nil
+		okS := ok && isFieldLoad(sl.X, "vnet.chunkQueue", "chunks") && (sl.High == nil ||
+			isLenOf(origin(sl.High), func(v ssa.Value) bool { return isFieldLoad(v, "vnet.chunkQueue", "chunks") }))
 		if okS {
 			k, isC := constInt(sl.Low)
 			okS = isC && k == 1
